@@ -17,8 +17,11 @@ HUES = [(255, 0, 0), (0, 255, 0), (0, 0, 255), (255, 255, 0), (0, 255, 255), (25
 BACKGROUNDS = [(255, 255, 255), (0, 0, 0), (128, 128, 128), (25, 25, 112), (255, 255, 224), (240, 240, 240), (34, 34, 34)]
 
 
+NEAR_GREYS = [(8, 9, 9), (33, 33, 34), (64, 63, 63), (116, 115, 115), (128, 129, 128), (200, 201, 200), (254, 255, 255), (1, 0, 0)]
+
+
 def colours():
-    return GREYS + HUES
+    return GREYS + HUES + NEAR_GREYS
 
 
 def pairs():
